@@ -50,7 +50,9 @@ public:
             int iqs = (int)r.uniform(4);
             // the (conforming) server may have expired the stream-management session by the time the client comes back
             const int expire = r.chance(0.25) ? 1 : 0;
-            p.ops.append(mkop(QStringLiteral("att"), { k, kind, iqs, expire, (qint64)rs.weighted({ 70, 18, 12 }) }, {}, (quint32)r.next()));
+            // ... and so may the authentication it offers: from SASL 2 (with bind2 and inline stream management) to plain
+            // SASL with legacy resource binding - what one connection learnt about the stream must not be applied to the next
+            p.ops.append(mkop(QStringLiteral("att"), { k, kind, iqs, expire, (qint64)rs.weighted({ 70, 18, 12 }), (qint64)rs.weighted({ 85, 15 }) }, {}, (quint32)r.next()));
             p.ops.append(mkop(QStringLiteral("wait"), { (qint64)r.uniform(2) }, {}, (quint32)r.next()));
         }
         if (r.chance(0.2)) {
@@ -347,6 +349,13 @@ public:
                     if (op.arg(3) == 1 && !where.isEmpty()) {
                         w.fault("server_expired_sm_sessions");
                         w.server->forgetSmSessions();
+                    }
+                    if (op.arg(5) == 1 && !w.server->profile.sasl2.isEmpty()) {
+                        w.fault("server_offers_only_plain_sasl_and_legacy_bind_from_now_on");
+                        w.server->profile.sasl2.clear();
+                        if (w.server->profile.sasl1.isEmpty()) {
+                            w.server->profile.sasl1 = QStringList { QStringLiteral("SCRAM-SHA-1") };
+                        }
                     }
                     if (op.arg(4) != 0 && w.server->profile.sm != 0 && w.server->profile.sm != (int)op.arg(4)) {
                         w.fault(op.arg(4) == 1 ? "server_offers_sm_without_resumption_from_now_on" : "server_offers_sm_with_resumption_from_now_on");
